@@ -1,5 +1,5 @@
 CHECK = {
-    "obligations": ["C17.gen_close_retires", "C17.c17_close_decision_blocks_admission", "C17.c17_stale_termination_witness", "C17.c17_no_deadlock", "C17.c17_single_record", "C17.gen_rank_ordered", "C17.gen_lock_classes",
+    "obligations": ["C17.gen_close_retires", "C17.gen_retry_wait", "C17.c17_close_decision_blocks_admission", "C17.c17_stale_termination_witness", "C17.c17_no_deadlock", "C17.c17_single_record", "C17.gen_rank_ordered", "C17.gen_lock_classes",
                     "C17.gen_programs_nontrivial", "C17.gen_orphan_repair", "C17.gen_structure",
                     "Locks.locks_rank_ordered_no_deadlock", "Locks.ok_map", "Panel.inv_step", "Panel.inv_refusedCleanup", "C17.c17_single_record_either",
                     "C17.pinned_not_rank_orderable", "C17.pinned_deadlock_reachable", "C17.pinned_exec_deadlock",
